@@ -1028,6 +1028,45 @@ async fn exec(ctx: &mut Ctx, line: &str) -> OpResult {
             }
             Ok(s)
         }
+        "LOOPDEL" if ctx.push.is_some() => {
+            // LOOPDEL <interval_ms> <subscription> <after_posts> <grace_ms>: the real push loop runs; once
+            // <after_posts> POSTs have arrived the subscription is deleted over gRPC; the POSTs that arrive after
+            // the deletion was answered are counted for <grace_ms> more.
+            let interval_ms: u64 = t.num().map_err(bad)?;
+            let subscription = t.str().map_err(bad)?;
+            let after_posts: usize = t.num().map_err(bad)?;
+            let grace_ms: u64 = t.num().map_err(bad)?;
+            t.end().map_err(bad)?;
+            let push = ctx
+                .push
+                .clone()
+                .ok_or_else(|| bad("LOOPDEL: push mode only".into()))?;
+            let lp = ctx.app.push_loop(Duration::from_millis(interval_ms));
+            let h = tokio::spawn(lp.run());
+            let started = std::time::Instant::now();
+            while push.shared.lock().unwrap().posts.len() < after_posts
+                && started.elapsed() < Duration::from_secs(5)
+            {
+                tokio::time::sleep(Duration::from_millis(1)).await;
+            }
+            let status = match call(
+                ctx.subscriber
+                    .delete_subscription(DeleteSubscriptionRequest { subscription }),
+            )
+            .await?
+            {
+                Ok(()) => 0,
+                Err(code) => code,
+            };
+            let before = push.shared.lock().unwrap().posts.len();
+            tokio::time::sleep(Duration::from_millis(grace_ms)).await;
+            h.abort();
+            for _ in 0..16 {
+                tokio::task::yield_now().await;
+            }
+            let posts = std::mem::take(&mut push.shared.lock().unwrap().posts);
+            Ok(format!("LOOPDEL {} {} {}", status, before, posts.len() - before))
+        }
         "SEED" => {
             let _: u64 = t.num().map_err(bad)?;
             t.end().map_err(bad)?;
@@ -1250,6 +1289,36 @@ async fn exec(ctx: &mut Ctx, line: &str) -> OpResult {
                 Err(code) => format!("PUB {}", code),
             })
         }
+        "PUBK" => {
+            // PUBK <topic> <k> (<data> <ordering key>){k}: Publish of k messages that carry ordering keys
+            let topic = t.str().map_err(bad)?;
+            let k: usize = t.num().map_err(bad)?;
+            let mut messages = Vec::with_capacity(k);
+            for _ in 0..k {
+                let data = t.bytes().map_err(bad)?;
+                let key = t.str().map_err(bad)?;
+                messages.push(PubsubMessage {
+                    data,
+                    attributes: HashMap::new(),
+                    message_id: String::new(),
+                    publish_time: None,
+                    ordering_key: key,
+                });
+            }
+            t.end().map_err(bad)?;
+            let req = PublishRequest { topic, messages };
+            Ok(match call(ctx.publisher.publish(req)).await? {
+                Ok(resp) => {
+                    let mut s = format!("PUB 0 {}", resp.message_ids.len());
+                    for id in &resp.message_ids {
+                        s.push(' ');
+                        s.push_str(&hexs(id));
+                    }
+                    s
+                }
+                Err(code) => format!("PUB {}", code),
+            })
+        }
         "PULL" => {
             let subscription = t.str().map_err(bad)?;
             let max_messages: i32 = t.num().map_err(bad)?;
@@ -1397,6 +1466,20 @@ async fn exec(ctx: &mut Ctx, line: &str) -> OpResult {
                     let sub = get_sub(&sub_name).ok_or_else(|| bad("XC: no such subscription".into()))?;
                     let topic = get_topic(&topic_name).ok_or_else(|| bad("XC: no such topic".into()))?;
                     (Box::pin(async move { let _ = sub.delete().await; }), Some(topic), None)
+                }
+                "ACKN" => {
+                    // Acknowledge of the ack ids <from> .. <from>+<n>-1 in ONE call (a request too large for any
+                    // internal batching to hide)
+                    let sub_name = t.str().map_err(bad)?;
+                    let from: u64 = t.num().map_err(bad)?;
+                    let n: u64 = t.num().map_err(bad)?;
+                    let sub = get_sub(&sub_name).ok_or_else(|| bad("XC: no such subscription".into()))?;
+                    let sub2 = Arc::clone(&sub);
+                    let mut ids = Vec::new();
+                    for v in from..from + n {
+                        ids.push(AckId::parse(&v.to_string()).map_err(|_| bad("XC: bad ack id".into()))?);
+                    }
+                    (Box::pin(async move { let _ = sub2.acknowledge_messages(ids).await; }), None, Some(sub))
                 }
                 "DS" | "PULL" | "ACK" => {
                     let sub_name = t.str().map_err(bad)?;
